@@ -19,11 +19,15 @@ package main
 //	Par{i,d}  memory reached from parameter i (0 = receiver; free variables of
 //	          closures are numbered after the parameters) after d loads,
 //	          d capped at depthCap ("that deep or deeper");
-//	Loc{n}    an object created in this function: Alloc, make, the result of a
-//	          call (a chain of depthCap objects so that "a fresh Lexer holding
-//	          a fresh Buffer holding the receiver's bytes" keeps its shape),
-//	          the result of append, a closure.  contents[n] = what was stored
-//	          into it (flow-insensitive, field-insensitive).
+//	Loc{n}    an object created in this function: Alloc, make, each result of
+//	          a call (a chain of depthCap objects so that "a fresh Lexer
+//	          holding a fresh Buffer holding the receiver's bytes" keeps its
+//	          shape), the result of append, a closure.  contents[n] = what
+//	          was stored into it (flow-insensitive, field-insensitive);
+//	fn, glob  a function constant; the memory of a package-level variable
+//	          (which keeps, program-wide, the FUNCTION values stored into it:
+//	          tables like dhcpHumanizer — nothing else is followed through
+//	          globals).
 //
 // Derivation follows FieldAddr / IndexAddr / Field / Index / Slice /
 // ChangeType / Convert / MakeInterface / ChangeInterface / TypeAssert / Phi /
@@ -55,8 +59,18 @@ package main
 //	  (all implementations for interface-typed operands, element and
 //	  exported field types for composites);
 //	every closure created is assumed to be called;
-//	a call through an unknown function value with a receiver-reaching
-//	  argument counts as a write.
+//	a call through a function value: function constants and closures (also
+//	  returned by calls or read from package-level tables) are resolved and
+//	  their summaries applied; a function value that comes from a PARAMETER
+//	  is recorded in the summary and resolved by the callers — what is still
+//	  unresolved at a read method itself is a callback its caller supplied
+//	  and is not charged to the method; a function value of unknown origin
+//	  with a receiver-reaching argument counts as a write.
+//
+// A summary is: places written (W), per result the places it aliases or,
+// after k loads, contains (R), calls through function-valued parameters (D).
+// Phase 1 iterates R/D/global function tables to a fixpoint, phase 2 then
+// recomputes W from scratch (the "unknown origin" rule is not monotone).
 //
 // Every other function outside the analysed packages is ASSUMED not to write
 // through its arguments (its result is assumed to alias them); the ones that
